@@ -537,9 +537,12 @@ func (p *Plan) explicitAlts(n Notation, to types.Type) (alts []Alt, loose bool, 
 		var more []Alt
 		for _, a := range alts {
 			if a.Slice != "" {
-				if types.AssignableTo(src.Type, to) {
-					more = append(more, Alt{Kind: "assign", Src: src, SrcDesc: a.SrcDesc})
-				} else {
+				// the slice value as a whole: assigned directly, or through an opted-in conversion of the slice type
+				convs, _ := p.castAlts(src.Type, to)
+				for _, c := range convs {
+					more = append(more, Alt{Kind: "assign", Src: src, SrcDesc: a.SrcDesc, Conv: c})
+				}
+				if !types.AssignableTo(src.Type, to) {
 					more = append(more, Alt{Kind: "nomatch"})
 				}
 			}
